@@ -37,6 +37,15 @@ fn id_frame(codes: [u32; 8]) -> [u32; 28] {
     }
     m
 }
+/// background of codes that are all omitted (space, NUL, punctuation): the callsign then consists
+/// of at most the two symbolic characters - and is EMPTY when those are omitted too
+const BLANK_BG: [u32; 8] = [32, 0, 47, 63, 32, 27, 58, 32];
+fn pair_codes_blank(p: usize) -> [u32; 8] {
+    let mut c = BLANK_BG;
+    c[p] = any_below(64);
+    c[p + 1] = any_below(64);
+    c
+}
 fn pair_codes(p: usize) -> [u32; 8] {
     let mut c = BG;
     c[p] = any_below(64);
@@ -80,30 +89,33 @@ macro_rules! pair_field {
         }
     };
 }
-// @harness name=c07_pair_0 props=C07 tier=thorough cap=600 family=c07pair quickpick=2
+// @harness name=c07_pair_0 props=C07 tier=thorough cap=600 family=c07pair quickpick=7
 // positions 0,1 jointly symbolic (4096 combinations), header/tail nibbles symbolic
 pair_field!(c07_pair_0, 0);
-// @harness name=c07_pair_1 props=C07 tier=thorough cap=600 family=c07pair quickpick=2
+// @harness name=c07_pair_1 props=C07 tier=thorough cap=600 family=c07pair quickpick=7
 // positions 1,2 (straddle a nibble-triple boundary)
 pair_field!(c07_pair_1, 1);
-// @harness name=c07_pair_2 props=C07 tier=thorough cap=600 family=c07pair quickpick=2
+// @harness name=c07_pair_2 props=C07 tier=thorough cap=600 family=c07pair quickpick=7
 // positions 2,3
 pair_field!(c07_pair_2, 2);
-// @harness name=c07_pair_3 props=C07 tier=thorough cap=600 family=c07pair quickpick=2
+// @harness name=c07_pair_3 props=C07 tier=thorough cap=600 family=c07pair quickpick=7
 // positions 3,4
 pair_field!(c07_pair_3, 3);
-// @harness name=c07_pair_4 props=C07 tier=thorough cap=600 family=c07pair quickpick=2
+// @harness name=c07_pair_4 props=C07 tier=thorough cap=600 family=c07pair quickpick=7
 // positions 4,5
 pair_field!(c07_pair_4, 4);
-// @harness name=c07_pair_5 props=C07 tier=thorough cap=600 family=c07pair quickpick=2
+// @harness name=c07_pair_5 props=C07 tier=thorough cap=600 family=c07pair quickpick=7
 // positions 5,6
 pair_field!(c07_pair_5, 5);
-// @harness name=c07_pair_6 props=C07 tier=thorough cap=600 family=c07pair quickpick=2
+// @harness name=c07_pair_6 props=C07 tier=thorough cap=600 family=c07pair quickpick=7
 // positions 6,7
 pair_field!(c07_pair_6, 6);
 
 macro_rules! row_ident {
     ($name:ident, $tc:expr, $p:expr) => {
+        row_ident!($name, $tc, $p, pair_codes);
+    };
+    ($name:ident, $tc:expr, $p:expr, $codes:ident) => {
         #[cfg_attr(kani, kani::proof)]
         #[cfg_attr(kani, kani::unwind(30))]
         #[cfg_attr(kani, kani::stub(chrono::Utc::now, crate::verif::rt::stub_now))]
@@ -112,7 +124,7 @@ macro_rules! row_ident {
         #[cfg_attr(kani, kani::stub(crate::decoder::utils::get_message_type, super::rows::stub_get_tc))]
         #[cfg_attr(verif_replay, test)]
         fn $name() {
-            let codes = pair_codes($p);
+            let codes = $codes($p);
             let m = id_frame(codes);
             pin_df(&m, 17);
             pin_tc(&m, $tc);
@@ -130,6 +142,7 @@ macro_rules! row_ident {
             let ca = bits(&m, 38, 40) as u32;
             vcover!(use_update && ca == 7, "-U, category 7");
             vcover!(!use_update && ca == 0, "default path, category 0");
+            vcover!(!use_update && ais_char(codes[$p]) == 0 && ais_char(codes[$p + 1]) == 0, "default path, both symbolic characters omitted");
             vassert!(matches_oracle(&p.ais, &m), "C07: row callsign is not the eight characters of the identification squitter just applied");
             vassert!(p.category == ($tc, ca), "C07: emitter category is not (type code, 3-bit category) of the identification squitter");
             assert_unchanged_except(&before, &p, F_AIS | F_CATEGORY | F_BOOK | F_CAP0);
@@ -139,6 +152,12 @@ macro_rules! row_ident {
 // @harness name=c07_row_tc4_p1 props=C07,C11 tier=quick cap=900
 // row step: DF17 TC4, characters 1,2 symbolic, CA symbolic, arbitrary row, -U/-R symbolic
 row_ident!(c07_row_tc4_p1, 4, 1);
+// @harness name=c07_row_tc4_blank props=C07,C11 tier=quick cap=900
+// row step: DF17 TC4 whose other six characters are all omitted codes (so the callsign may be EMPTY), characters 3,4 symbolic
+row_ident!(c07_row_tc4_blank, 4, 3, pair_codes_blank);
+// @harness name=c07_row_tc2_blank props=C07,C11 tier=thorough cap=900
+// row step: DF17 TC2, blank background, characters 0,1 symbolic
+row_ident!(c07_row_tc2_blank, 2, 0, pair_codes_blank);
 // @harness name=c07_row_tc1_p4 props=C07,C11 tier=thorough cap=900
 // row step: TC1, characters 4,5
 row_ident!(c07_row_tc1_p4, 1, 4);
